@@ -83,3 +83,40 @@ for rule in ('strict', 'middle', 'none'):
     ob('C12.win.' + rule, ['C12'], 'split_kmer/qual', 'qual_win_%s_k5_l8' % rule, functions=WINF + [SK + 'valid_qual', SK + 'middle_base_qual'], inst='u64', needs_parts=['split_kmer/common'],
        sym='read <= 8 symbols over {ACGTNacgtn}, quality string, min_qual 0..=60, strand mode', oracle='strict: windows with no N and every quality >= min; middle/none: all N-free windows and middle-base verdict',
        bounds='k=5, read length <= 8, rule=' + rule, timeout=1800, mem_gb=12)
+
+# ------------------------------------------------------------------ C16.nthash / C12.hash
+NTF = ['src/ska_dict/nthash.rs::NtHashIterator::' + f for f in ('new', 'roll_fwd', 'curr_hash')]
+for k in range(5, 64, 2):
+    ob('C16.nthash.k%d' % k, ['C16', 'C12'], 'nthash/c16', 'nthash_k%d' % k, tier='thorough', functions=NTF, sym='k+1 valid bases, strand mode', oracle='roll = recompute; hash(w) = hash(revcomp(w)) with strands merged',
+       bounds='k=%d' % k, timeout=1200, mem_gb=10, quick_sample={'family': 'nthash', 'pick': 3, 'always': k in (31, 63)})
+# ------------------------------------------------------------------ C05.idx
+IDF = ['src/ska_ref/idx_check.rs::IdxCheck::new', 'src/ska_ref/idx_check.rs::IdxCheck::iter', 'src/ska_ref/idx_check.rs::IdxCheckIter::next']
+ob('C05.idx.3x4', ['C05'], 'idx_check/c05', 'idx_iter_3x4', functions=IDF, sym='3 contig lengths in 1..=4', oracle='i-th item = (contig, offset) of absolute index i; exactly sum(lengths) items then None',
+   bounds='3 contigs of length 1..=4 (non-empty)', timeout=600)
+ob('C05.idx.4x6', ['C05'], 'idx_check/c05', 'idx_iter_4x6', tier='thorough', functions=IDF, sym='4 contig lengths in 1..=6', oracle='as C05.idx.3x4', bounds='4 contigs of length 1..=6 (non-empty)', timeout=1800)
+
+# ------------------------------------------------------------------ C06 filter
+MA = 'src/merge_ska_array.rs::MergeSkaArray::'
+FILTF = [MA + 'filter', MA + 'update_counts', BE + 'is_ambiguous']
+FTN = ['nofilter', 'noconst', 'noambig', 'noambigorconst']
+for c in (3, 4):
+    for ft in range(4):
+        for am in (0, 1):
+            for mk in (0, 1):
+                for ng in (0, 1):
+                    for uk in (0, 1):
+                        cfg = '%s.am%d.mk%d.ng%d.uk%d' % (FTN[ft], am, mk, ng, uk)
+                        always = (ft, am, mk, ng, uk) in ((1, 0, 0, 0, 0), (3, 1, 1, 1, 1))
+                        d = ob('C06.row.c%d.%s' % (c, cfg), ['C06'], 'merge_ska_array/filter', 'frow_c%d_%s_am%d_mk%d_ng%d_uk%d' % (c, FTN[ft], am, mk, ng, uk), tier='thorough',
+                               functions=FILTF, inst='u64', needs_parts=['merge_ska_array/common'], caps={'ACAP': c, 'SCAP': c, 'MCAP': 1}, models=['ndarray', 'hashbrown'],
+                               sym='one row of %d symbols over the 16 stored symbols, min_count 0..=%d' % (c, c + 1), oracle='row kept iff count >= max(1,min_count) and site predicate (from the property text); kept row shows stored bases, ambiguity codes as N under mask',
+                               bounds='1 row x %d samples; flags concrete: filter=%s ambig-as-missing=%d mask=%d no-gap-only=%d update-kmers=%d' % (c, FTN[ft], am, mk, ng, uk), timeout=1500, mem_gb=10)
+                        if c == 3:
+                            d['quick_sample'] = {'family': 'C06.row', 'pick': 16, 'always': always}
+for (nm, fn) in [('noconst', 'filter2_noconst_plain'), ('noconst.uk', 'filter2_noconst_uk'), ('nofilter.am.uk', 'filter2_nofilter_am_uk'), ('noambig.mask', 'filter2_noambig_mask'),
+                 ('noambigorconst.all', 'filter2_noambigorconst_all'), ('noconst.ng', 'filter2_noconst_ng'), ('noambigorconst', 'filter2_noambigorconst_plain'), ('nofilter.mask.uk', 'filter2_nofilter_mask_uk')]:
+    ob('C06.align.' + nm, ['C06'], 'merge_ska_array/filter', fn, tier='quick' if nm in ('noconst.uk', 'noambigorconst.all') else 'thorough', functions=FILTF, inst='u64', needs_parts=['merge_ska_array/common'],
+       caps={'ACAP': 6, 'SCAP': 3, 'MCAP': 1}, models=['ndarray', 'hashbrown'], sym='2 rows x 3 symbols over the 16 stored symbols, min_count 0..=3',
+       oracle='kept rows keep their order; k-mers (when updated), variants and counts stay row-aligned; removed count', bounds='2 rows x 3 samples, flags: ' + nm, timeout=2400, mem_gb=12)
+ob('C06.cnt', ['C06', 'C10'], 'merge_ska_array/filter', 'update_counts_2x3', functions=[MA + 'update_counts'], inst='u64', needs_parts=['merge_ska_array/common'], caps={'ACAP': 6, 'SCAP': 3, 'MCAP': 1}, models=['ndarray'],
+   sym='2 rows x 3 symbols, stale counts, both counting modes', oracle='counts recomputed, empty rows removed, k-mers aligned', bounds='2x3', timeout=1200, mem_gb=10)
